@@ -109,6 +109,7 @@ def main():
       },
       "engines": [
         {"name": "tlc", "path": "/opt/veriftools/tla/tla2tools.jar", "serves_properties": sorted(CHECKS), "kind_free_text": "TLC 1.8.0 explicit-state model checker, CommunityModules (Json, IOUtils, SequencesExt)"},
+        {"name": "apalache", "path": "/opt/veriftools/apalache", "serves_properties": ["C02", "C12"], "kind_free_text": "Apalache 0.58 symbolic model checker: inductive invariant of the XMSS index counter for every tree size (XmssCounter.tla), Montgomery and reduce32 over their whole operand ranges (Montgomery.tla, Reduce32.tla), each with a control property that must be refuted"},
         {"name": "go-harness", "path": "/verif/harness", "serves_properties": sorted(CHECKS), "kind_free_text": "Go drivers that execute the real library (build tag verif) and record ndjson traces / replay TLC-generated behaviours"},
       ],
       "checks": [],
